@@ -21,13 +21,16 @@ PROP = dict(
     lean_modules=["Octo.Props.C21"],
     required_theorems=[
         "Octo.C21.window_contains", "Octo.C21.window_len", "Octo.C21.window_aligned", "Octo.C21.window_unique",
-        "Octo.C21.tumble_stream", "Octo.C21.tumble_watermarks", "Octo.C21.tumble_run",
+        "Octo.C21.tumble_stream", "Octo.C21.tumble_watermarks", "Octo.C21.tumble_run", "Octo.C21.tumble_timely",
+        "Octo.C21.tumble_no_retractions", "Octo.C21.tumble_panic_prefix", "Octo.C21.tumble_schema_index",
+        "Octo.C21.tumble_schema_shape",
         "Octo.C21.range_spec", "Octo.C21.range_mem", "Octo.C21.range_ascending", "Octo.C21.range_empty", "Octo.C21.range_run",
         "Octo.C21.poll_rounds", "Octo.C21.poll_round", "Octo.C21.poll_consolidated", "Octo.C21.poll_timely", "Octo.C21.poll_valid",
         "Octo.C21.tumble_refuted", "Octo.C21.C21_refuted", "Octo.C21.C21_partial", "Octo.C21.shipped_poll_refuted",
     ],
     nontrivial=_nontrivial,
-    rule="ops: `range s e` for every (s,e) in [-20,20]^2 plus budgets, NULL arguments and the ends of int64; `tumble` over scripted "
+    rule="ops: `schema …` = the three OutputSchema functions over every source schema with <= 3 fields of {Time, Int, Time|Null} x "
+         "time field x NoRetractions x explicit/implicit time_field; `range s e` for every (s,e) in [-20,20]^2 plus budgets, NULL arguments and the ends of int64; `tumble` over scripted "
          "streams (records, retractions, watermarks, event times, several fields, 6 time zones) with window lengths from 1 ns to "
          "MaxInt64 (all three branches of time.div), offsets of both signs up to +-MaxInt64 and MinInt64, instants on / next to "
          "window boundaries counted from Go's zero time, before 1970 and at both ends of the UnixNano range, explicit and implicit "
